@@ -625,6 +625,27 @@ theorem swapped_assert_traps :
     run { srcRouting with asserts := fun k => if k = .snapshot then .restore else k }
       [.req .snapshot, .send .snapshot 1, .wait .snapshot] = ([(.snapshot, .trap .snapshot)], false) := by decide
 
+/-- **udf_call_before_open_is_an_error**: whatever the order in which the snapshotter's `Snapshot()`, a stop's
+`Abort()` and the node's `Open()` happen, a wrapper that checks for the missing server never dereferences it: a
+snapshot asked for too early is an error (which `runSnapshotter` logs and retries), an early abort a no-op. -/
+theorem udf_call_before_open_is_an_error (opened : Bool) (es : List WEv) :
+    WRes.trap ∉ wrapper true true opened es := wrapper_no_trap opened es
+
+/-- `UDFProcess` and `UDFSocket` both check (extracted from udf.go on every run; a wrapper method of another
+shape, or a missing one, breaks this theorem). -/
+theorem udf_wrappers_guard_missing_server :
+    guardOf Gen.udfWrapperGuards .processSnapshot = true ∧ guardOf Gen.udfWrapperGuards .processAbort = true ∧
+    guardOf Gen.udfWrapperGuards .socketSnapshot = true ∧ guardOf Gen.udfWrapperGuards .socketAbort = true := by decide
+
+example : wrapper true true false [.snapshot, .abort, .opened, .snapshot] = [.err, .ok, .ok, .ok] := by decide
+
+/-- Counterexample (the code before the repair): a UDF that takes longer to start than the snapshot interval, or a
+task stopped while its UDF is starting, dereferenced the nil server - on the snapshotter goroutine the process
+died. -/
+theorem old_udf_call_before_open_traps :
+    wrapper false false false [.snapshot] = [.trap] ∧ wrapper false false false [.abort] = [.trap] ∧
+    wrapper true false false [.abort, .opened] = [.trap, .ok] := by decide
+
 end Pairing
 
 /-! ### Slice expressions of the builtin functions (data-dependent indexes) -/
